@@ -18,6 +18,7 @@ import (
 	"verif/h/fw"
 	"verif/h/node"
 
+	"com.tuntun.rangers/node/src/common"
 	"com.tuntun.rangers/node/src/core"
 	"com.tuntun.rangers/node/src/middleware/types"
 	"com.tuntun.rangers/node/src/utility"
@@ -55,6 +56,11 @@ func castOne(c *fw.Ctx, in Input, stepMs int) {
 	}
 	if in.Pre != "" {
 		parent = preRoots[in.Pre]
+	}
+	if in.At != 0 {
+		blockAt = in.At
+		common.SetBlockHeight(in.At - 1)
+		defer func() { blockAt = 0; common.SetBlockHeight(chainHeight) }()
 	}
 	st := node.StateAt(parent)
 	b := block(in.Txs, st, 0)
